@@ -98,7 +98,7 @@ var purePkgs = map[string]string{
 	"math/bits": "S7", "sync": "sync.Once / pools guarding one-time table construction", "golang.org/x/crypto/cryptobyte": "pure byte-string parser", "unicode": "S7", "slices": "S7", "maps": "S7", "math": "S7",
 	"crypto": "hash registry constants", "crypto/tls": "constants / pure helpers", "crypto/x509": "not expected", "internal/byteorder": "S7", "reflect": "type switches in fmt", "bufio": "in-memory", "golang.org/x/crypto/cryptobyte/asn1": "constants",
 	"crypto/subtle": "S7", "crypto/hmac": "S7", "crypto/sha512": "S7", "crypto/sha1": "S7", "golang.org/x/crypto/hkdf": "S7", "crypto/cipher": "S7", "crypto/aes": "S7", "golang.org/x/crypto/chacha20poly1305": "S7",
-	"crypto/ecdh": "key parsing", "crypto/elliptic": "constants", "crypto/internal/boring": "unused", "runtime": "panics/assertions", "builtin": "",
+	"crypto/ecdh": "key parsing", "math/big": "S7 (arbitrary-precision arithmetic)", "github.com/quic-go/quic-go/quicvarint": "pure varint encoder", "crypto/elliptic": "constants", "crypto/internal/boring": "unused", "runtime": "panics/assertions", "builtin": "",
 }
 
 // purityDefects scans the analysed functions of a closure for sources of state or nondeterminism.
@@ -135,11 +135,11 @@ func purityScan(c *Ctx, p *purity, allowMetaField string) []purityDefect {
 					}
 				}
 			case *ssa.Store:
-				if g := rootGlobal(x.Addr); g != nil && !(fn.Name() == "init" && fn.Parent() == nil) {
+				if g := rootGlobal(x.Addr); g != nil && !isInitFn(fn) {
 					out = append(out, purityDefect{fn, i, "writes package-level variable " + g.Pkg.Pkg.Name() + "." + g.Name()})
 				}
 			case *ssa.MapUpdate:
-				if g := rootGlobal(x.Map); g != nil && !(fn.Name() == "init" && fn.Parent() == nil) {
+				if g := rootGlobal(x.Map); g != nil && !isInitFn(fn) {
 					out = append(out, purityDefect{fn, i, "updates package-level map " + g.Pkg.Pkg.Name() + "." + g.Name()})
 				}
 			}
